@@ -9,7 +9,7 @@ use mqtt_protocol_core::mqtt::packet::{
 };
 use mqtt_protocol_core::mqtt::result_code::*;
 
-pub trait Pid: IsPacketId + mqtt::packet::IntoPacketId<Self> + Send + Sync + 'static {
+pub trait Pid: IsPacketId<Buffer: Send + Sync> + mqtt::packet::IntoPacketId<Self> + Send + Sync + 'static {
     const W: usize;
     fn from_u32(v: u32) -> Option<Self>;
     fn to_u32_(self) -> u32;
